@@ -286,6 +286,10 @@ impl<'a> Matcher<'a> {
                     self.print_body(kind, regs, bytes, ei)?;
                 }
                 Ev::Out(b) => {
+                    // a prompt marker may precede the output (the answer typed at the prompt is not echoed)
+                    while self.rest().starts_with(b">>> ") {
+                        self.pos += 4;
+                    }
                     // raw bytes, or the UTF-8 encoding of the same code points
                     let r = self.rest();
                     let utf8: Vec<u8> = b.iter().map(|c| *c as char).collect::<String>().into_bytes();
